@@ -32,7 +32,7 @@ RULE = ("pattern copies sharing atoms: hetero chains A-B-A-B-.. with unequal / e
         "orthorhombic / triclinic / rotated cells, bystander atoms; replacement: every subset of search atoms retained, "
         "the others dropped, swapped for another element, or kept as the same element NUDGED by 1e-4..0.03 A (not shared by the "
         "documented 1e-5 A rule although within the search tolerance), optional extra atom, EMPTY replacement; replace_all on/off; "
-        "ignore flag on/off; fraction 1 or < 1. Thorough: every template x every retained subset x drop/swap x extra x both "
+        "ignore flag on/off; fraction 1 or < 1; atol in {.05, .02, .1}; return_num_matches on/off. Thorough: every template x every retained subset x drop/swap x extra x both "
         "flags. Non-trivial = distinct input with >= 2 selected matches that share at least one atom.")
 
 REQUIRED = ("AtomsShouldNotBeDeletedTwice raised (and no structure returned)  <=>  not ignored, replacement non-empty and two "
@@ -191,7 +191,8 @@ def make_case(rng, kind=None, ncopies=None, retain=None, other=None, extra=None,
     rj = g.pattern_json(relems, rpos, charges=[1000 + i for i in range(len(relems))], groups=[5] * len(relems))
     if f is None:
         f = 1.0 if rng.random() < 0.8 else rng.choice([0.5, 0.67, 0.75, 0.34])
-    return {"op": "replace-c07", "sj": sj, "pj": pj, "rj": rj, "atol": 0.05, "f": f,
+    return {"op": "replace-c07", "sj": sj, "pj": pj, "rj": rj, "atol": rng.choice([0.05, 0.05, 0.05, 0.02, 0.1]), "f": f,
+            "return_num": bool(rng.random() >= 0.15),
             "replace_all": bool(rng.random() < 0.3 if replace_all is None else replace_all),
             "ignore": bool(rng.random() < 0.4 if ignore is None else ignore), "seed": rng.randrange(1 << 30),
             "info": {"kind": kind, "copies": ncopies, "retain": sorted(retain), "other": other, "extra": bool(extra),
@@ -229,7 +230,7 @@ def oracle_overlap(inp, out):
                "the replacement is empty" if (overlap and r_empty) else "no atom would be removed twice")
         return "%s, yet the replacement raised %s" % (why, out.get("err")), obs
     res = out["ok"]
-    if out["n"] != k:
+    if inp.get("return_num", True) and out["n"] != k:
         return "reported match count differs from the number of selected matches", {"reported": out["n"], "selected": k}
     removed = set().union(*dsets) if dsets else set()
     count = {}
@@ -276,7 +277,8 @@ def tags_of(inp, out):
     i = inp["info"]
     t = ["kind:" + i["kind"], "copies:%d" % i["copies"], "retain:%s" % "".join(str(j) for j in i["retain"]) if i["retain"] else "retain:none",
          "other:" + i["other"], "extra:%s" % i["extra"], "replace_all:%s" % inp["replace_all"], "ignore:%s" % inp["ignore"],
-         "r_empty:%s" % (i["r_atoms"] == 0), "f:%s" % ("1" if inp["f"] >= 1 else "<1")]
+         "r_empty:%s" % (i["r_atoms"] == 0), "f:%s" % ("1" if inp["f"] >= 1 else "<1"), "atol:%g" % inp["atol"],
+         "return_num_matches:%s" % inp.get("return_num", True)]
     if out.get("used") is not None:
         t.append("selected:%d" % len(out["used"]))
         t.append("share-atoms:%s" % shares(out))
